@@ -15,6 +15,10 @@ def module_consts(module):
   for name, v in module.assigns.items():
     if isinstance(v, (ast.Tuple, ast.List, ast.Set)) and all(isinstance(x, ast.Constant) for x in v.elts):
       out[name] = v
+    # scalar constants: _ZERO_COST_ORDER = -10, _LEVEL_DECIMALS = 4 (upper-case / underscore names only: module-level configuration)
+    elif name.upper() == name and (isinstance(v, ast.Constant) and isinstance(v.value, (int, float, str)) and not isinstance(v.value, bool)
+                                   or (isinstance(v, ast.UnaryOp) and isinstance(v.op, ast.USub) and isinstance(v.operand, ast.Constant))):
+      out[name] = v
   return out
 
 
